@@ -256,6 +256,48 @@ def g_js_build(rng, parse_too=False):
     return ops + ["js free"]
 
 
+def g_js_index(rng):
+    """indexed access to lists: json_list_get_value builds an index array lazily (one allocation
+    from the context pool, only for lists of more than 10 elements, again after every append).
+    Lists of 11..40 elements (and a few long ones), filler strings so that the pool segment is at a
+    different fill level each time, then first / repeated / post-append accesses through the plain
+    and the typed getter.  The fault must be able to land in the getter's own allocation."""
+    ops = ["js new %d" % rng.choice([0, 0, 1024, 1200])]
+    lists = {}
+    slot = 0
+    for _ in range(3 + rng.below(6)):
+        slot += 1
+        n = rng.choice([9, 10, 11, 11, 12, 15, 20, 25, 30, 40, 40, 11 + rng.below(30), 100 + rng.below(200)])
+        v = [rng.below(1000) - 500 if rng.chance(4, 5) else rng.choice(["s", None, True, 1.5]) for _ in range(n)]
+        if rng.chance(1, 2) or n > 40:
+            ops.append("js parse %d %s" % (slot, H(js_text(rng, v))))
+        else:
+            ops.append("js list %d" % slot)
+            for x in v:
+                ops.append("js lapp %d %s" % (slot, "int %d" % x if isinstance(x, int) and not isinstance(x, bool)
+                                              else "null 0"))
+        lists[slot] = n
+        if rng.chance(2, 3):            # filler: moves the fill level of the current pool segment
+            slot += 1
+            ops.append("js parse %d %s" % (slot, H(json.dumps("f" * rng.below(900)).encode())))
+    order = sorted(lists)
+    for rnd in range(2):
+        for s in order:
+            n = lists[s]
+            for idx in (0, n // 2, n - 1, n):
+                ops.append("js %s %d %d" % (rng.choice(["lget", "lgeti"]), s, idx))
+            if rng.chance(1, 3):
+                slot += 1
+                ops.append("js parse %d %s" % (slot, H(json.dumps("g" * rng.below(700)).encode())))
+        if rnd == 0:
+            for s in order:             # an append drops the index array: the next access builds it again
+                if rng.chance(2, 3):
+                    ops.append("js lapp %d int 7" % s)
+                    lists[s] += 1
+    ops.append("js render %d" % rng.choice(order))
+    return ops + ["js free"]
+
+
 # ------------------------------------------------------------------------------- talloc
 class TaModel:
     """fault-free view of the slot tree, only used to generate mostly meaningful scripts (the harness
@@ -391,6 +433,41 @@ def g_ta(rng, mode):
                     m.refs.remove(via[0])
     if rng.chance(1, 3):
         ops.append("ta realloc 0 %d" % rng.choice([1, 64, 500]))
+    return ops + ["ta done"]
+
+
+def g_ta_limit(rng):
+    """memlimit: talloc_set_memlimit on the root (and sometimes on a child context), then blocks
+    that grow AND shrink through talloc_realloc, frees and steals.  The dump shows after every op
+    what each limited context still admits (largest talloc_size that succeeds): an op that reports
+    failure must leave it unchanged, and continued use is compared with the fault-free run."""
+    limit = rng.choice([5000, 10000, 10000, 20000])
+    ops = ["ta top", "ta limit 0 %d" % limit]
+    blocks = []          # slots holding sized blocks
+    ctxs = [0]
+    slot = 0
+    sizes = [1, 100, 500, 1000, 2000, 3000, 3999, 4000, 4500]
+    for _ in range(8 + rng.below(25)):
+        r = rng.below(100)
+        if r < 30 or not blocks:
+            slot += 1
+            ops.append("ta new %d %d %d" % (slot, rng.choice(ctxs), rng.choice(sizes)))
+            blocks.append(slot)
+        elif r < 38 and len(ctxs) < 3:
+            slot += 1
+            ops.append("ta new %d 0 16" % slot)
+            ops.append("ta limit %d %d" % (slot, rng.choice([3000, 6000, 9000])))
+            ctxs.append(slot)
+        elif r < 75:
+            ops.append("ta realloc %d %d" % (rng.choice(blocks), rng.choice(sizes + [1 + rng.below(5000)])))
+        elif r < 85 and len(blocks) > 1:
+            b = blocks.pop(rng.below(len(blocks)))
+            ops.append("ta free %d" % b)
+        elif r < 92:
+            ops.append("ta steal %d %d" % (rng.choice(blocks), rng.choice(ctxs)))
+        else:
+            slot += 1
+            ops.append("ta strdup %d %d %s" % (slot, rng.choice(ctxs), H(("z" * rng.below(300)).encode())))
     return ops + ["ta done"]
 
 
@@ -618,6 +695,8 @@ FAMILIES = {
     "js-parse": (g_js_parse, "h", {"prefix": "js ", "strict_live": False, "live_exact": False}),
     "js-build": (lambda r: g_js_build(r), "h", {"prefix": "js ", "strict_live": False, "live_exact": False}),
     "js-mixed": (lambda r: g_js_build(r, True), "h", {"prefix": "js ", "strict_live": False, "live_exact": False}),
+    "js-index": (g_js_index, "h", {"prefix": "js ", "strict_live": False, "live_exact": False}),
+    "ta-limit": (g_ta_limit, "h", {"prefix": "ta ", "strict_live": True, "live_exact": True}),
     "ta-tree": (lambda r: g_ta(r, "tree"), "h", {"prefix": "ta ", "strict_live": True, "live_exact": True}),
     "ta-strings": (lambda r: g_ta(r, "strings"), "h", {"prefix": "ta ", "strict_live": True, "live_exact": True}),
     "ta-refs": (lambda r: g_ta(r, "refs"), "h", {"prefix": "ta ", "strict_live": True, "live_exact": True}),
